@@ -264,6 +264,15 @@ def run(ctx: Ctx) -> None:
     ctx.ob("C17.R4", sva, "the pending-start slot is only written where a start task is created", not bad_sw and len(slot_writes) >= 2, f"{bad_sw}: with two overlapping start requests the slot would no longer hold the running task and unsub() could not cancel it")
     cancels = [c for c in own_nodes(unsub.node) if isinstance(c, ast.Call) and isinstance(c.func, ast.Attribute) and c.func.attr == "cancel" and norm(c.func.value) == slot_in_unsub]
     ctx.ob("C17.R4", unsub, "unsubscribe cancels a pending start task", len(cancels) == 1, "")
+    # ... and nobody else does: a start task cancelled by anything but the unsubscribe function (a newer request, a
+    # stop message) completes as cancelled, and the completion callback answers a cancelled start with nothing at all
+    other_cancels = []
+    for fnn in ctx.repo.funcs_in("client"):
+        if fnn.qualname.startswith("APIClient.subscribe_voice_assistant") and fnn is not unsub:
+            for c in own_nodes(fnn.node):
+                if isinstance(c, ast.Call) and isinstance(c.func, ast.Attribute) and c.func.attr == "cancel" and isinstance(c.func.value, ast.Name) and c.func.value.id == "start_task":
+                    other_cancels.append(f"{fnn.qualname} L{c.lineno}")
+    ctx.ob("C17.R4", sva, "only the unsubscribe function cancels a start task", not other_cancels, f"{other_cancels}: the cancelled start request is never answered - neither with a port nor with an error")
     us = [c for c in own_nodes(unsub.node) if isinstance(c, ast.Call) and norm(c.func).endswith("send_message") and c.args and isinstance(c.args[0], ast.Call)]
     ctx.ob("C17.R4", unsub, "unsubscribe tells the device (subscribe=False)", len(us) == 1 and {kw.arg: norm(kw.value) for kw in us[0].args[0].keywords} == {"subscribe": "False"} and norm(us[0].args[0].func) == "SubscribeVoiceAssistantRequest", "")
     rets = [n for n in own_nodes(sva.node) if isinstance(n, ast.Return)]
